@@ -5,6 +5,7 @@ CONFIG = {
     "technique": "Lean 4 invariant proof over all add/remove/clone/hit/end-of-scope/restart histories of a model of the DR7/DR6 packing and of the watchpoint registry (constants re-extracted from register.rs / watchpoint.rs on every run) + differential correspondence with the real DebugControlRegister / DebugStatusRegister and with live debuggee histories (PTRACE_PEEKUSER of every thread) + independent Intel-layout oracle",
     "level_text": "Proved in Lean for every history: in every thread L_i is set iff an active watchpoint owns slot i and then DR_i/RW_i/LEN_i are its address/condition/size in the Intel encoding, G bits and GE clear, LE iff non-empty, at most four, unique slot owners, lowest free slot reused, no stale enable bit after removal, new threads inherit the image, duplicates refused without side effect, unscoped watchpoints survive restart, DR6 hit -> slot; get/set field lemmas for all four slots. The refusal-without-side-effect clause is false of the unchanged code for a fifth watchpoint on a scoped local (companion breakpoint leaked): proved as _partial + _counterexample and reproduced on the real code. Model tied to the code on every run by exhaustive (slot, cond, size) x prior-image-class execution of the real register operations and by live histories on a real debuggee whose debug registers the harness reads itself.",
     "level_note": "Trusted: Lean kernel + 3 standard axioms; tools/tables/dr.py (regex extraction of the layout constants); model<->code tie is exhaustive over the operation arguments and sampled over prior images / histories; hardware delivery of data breakpoints (every write stops once, old/new value) is sampled on live runs, not a theorem; kernel behaviour for a new thread's debug registers (cleared) and ESRCH paths are environment assumptions.",
+    "shrinkable": False,
     "runs": {"quick": [{"n": 3000}], "thorough": [{"n": 60000, "extra": ["--live-sessions", "60"]}]},
     "assumptions": [
         "a newly cloned thread starts with cleared debug registers (Linux x86 copy_thread) unless the tracer writes them; sampled by the live run",
